@@ -74,7 +74,8 @@ def _weights(prop, rng):
                  add_attackers_late=2, new_generated=3)
     elif prop == 'C12':
         w.update(surface_query=6, surface_update=8, compromise=4, relabel=6, analyse=2,
-                 defense_query=2, prune=0, regenerate=0, saveload=0, copy=0, remove_node=1)
+                 defense_query=3, prune=0, regenerate=2, model_edit=1, saveload=0, copy=0,
+                 remove_node=1)
     elif prop == 'C13':
         w.update(prune=6, relabel=10, analyse=3, compromise=4, add_attacker=3, link=8)
     elif prop == 'C14':
@@ -571,6 +572,8 @@ class GraphWorld(BaseWorld):
                 name = 'a%d' % self.ah
         reached = rng.sample(s.ref.order, min(len(s.ref.order), rng.choice([0, 1, 2, 3, 5])))
         entry = [h for h in reached if rng.random() < 0.7]
+        if reached and rng.random() < 0.15:
+            reached = reached + [rng.choice(reached)]       # the same step named twice
         bad = None
         if reached and rng.random() < 0.15 and not self.guard('add_attacker_unknown_node'):
             bad = rng.choice(['reached', 'entry'])
@@ -585,7 +588,8 @@ class GraphWorld(BaseWorld):
         ks = [self.new_ah(), self.new_ah()]
         return {'op': 'add_attackers_late', 'g': gi, 'ks': ks,
                 'names': [f'late{ks[0]}', f'late{ks[1]}'], 'nodes': nodes,
-                'second_on': [h for h in nodes if rng.random() < 0.7]}
+                'second_on': [h for h in nodes if rng.random() < 0.7],
+                'pass_reached': rng.random() < 0.5}
 
     def gen_remove_attacker(self, rng, gi):
         s = self.slots[gi]
@@ -993,7 +997,12 @@ class GraphWorld(BaseWorld):
                 self.fail('C11.must_not_raise', f'{where}: compromise raised {o.exc!r}')
         used = {a.id for a in s.ref.attackers.values()}
         for att, k, reached in ((atts[0], ks[0], nodes), (atts[1], ks[1], second)):
-            o = call(s.g.add_attacker, att)
+            if op.get('pass_reached'):
+                # the steps it already holds are named again when it is registered
+                o = call(s.g.add_attacker, att,
+                         reached_attack_steps=[s.ref.nodes[h].id for h in reached])
+            else:
+                o = call(s.g.add_attacker, att)
             if o.raised:
                 self.fail('C09.must_not_raise', f'{where}: add_attacker raised {o.exc!r}')
             if not isinstance(att.id, int) or att.id in used:
